@@ -212,6 +212,9 @@ def gen_plan(rng, tier, i, seed):
     if rng.random() < 0.3:
         # a multi-nucleotide substitution whose last base change is a catalogued substitution of its own
         extra = {"close_pair": "mnp_inner_snp", "close_func": True}
+    if rng.random() < 0.4:
+        # multi-nucleotide substitutions that are silent variants of a sub-allele (catalogued all the same)
+        extra["silent_mnp"] = True
     world = WL.one_gene_world(rng, small=True, kinds=kinds, n_variants=rng.choice([5, 7]), lfusion=False,
                               rfusion=False, **extra)
     reads = gen_reads(rng, world, rng.randint(*cfg["nreads"]))
@@ -539,7 +542,9 @@ def run_segment(seg):
     reads = plan["reads"]
     contig = world["contig"]["seq"]
     bounds = (min(gene.chr_to_ref), max(gene.chr_to_ref))
-    multi_sites = {m.pos: m.op for a in gene.alleles.values() for m in a.func_muts if ">" in m.op and len(m.op) > 3}
+    # every catalogued multi-nucleotide substitution - core variants of major alleles and silent variants of
+    # their sub-alleles alike (the statement says "catalogued")
+    multi_sites = {pos: op for pos, op in sorted(gene.mutations) if ">" in op and len(op) > 3}
     tab, shown, mstats = model(world, gene, reads, lo, hi, multi_sites)
     viol, unsound = [], []
     stats = {"cells": 0, "deliveries": [], "fired": {}, "ops": Counter(), "flags": Counter(),
